@@ -46,6 +46,11 @@ var c13Inval = []struct {
 	// occur in the call's receiver or arguments
 	{"assign-slice-element-of-receiver-fact", func() *grl.Rule { return grl.R("vElem", grl.Sal(2), "F.Arr[0] < 2", "F.Arr[0] = F.Arr[0] + 1") }, false},
 	{"assign-map-entry-of-receiver-fact", func() *grl.Rule { return grl.R("vEntry", grl.Sal(2), `F.M["a"] < 2`, `F.M["a"] = F.M["a"] + 1`) }, false},
+	// assignments of pointer-, slice- and map-valued fields of ANOTHER fact (copied by reference: the target becomes an
+	// alias of the source); no variable of the call is concerned
+	{"assign-pointer-on-other-object", func() *grl.Rule { return grl.R("vPtr", grl.Sal(1), "G.I32 < 1", `G.P = G.MP["a"]`, "G.I32 = 1") }, false},
+	{"assign-slice-on-other-object", func() *grl.Rule { return grl.R("vSlice", grl.Sal(1), "G.U8 < 1", "G.Arr = G.SelArr", "G.U8 = 1") }, false},
+	{"assign-map-on-other-object", func() *grl.Rule { return grl.R("vMap", nil, "G.U16 < 1", "G.M = G.M", "G.U16 = 1") }, false},
 	// rules whose condition FAILS in every cycle (a panicking user method, a nil pointer, an index out of
 	// range): they are simply not candidates and concern no remembered value
 	{"failing-condition-panicking-method", func() *grl.Rule { return grl.R("vBoom", grl.Sal(3), "G.Boom()", "G.I16 = 1") }, false},
@@ -136,7 +141,12 @@ func C13(rep *ev.Reporter, tier string) {
 			f.Arr = []int64{0, 7}
 			f.M = map[string]int64{"a": 0}
 			w.Objs["F"] = f
-			w.Objs["G"] = facts.New()
+			g := facts.New()
+			g.MP = map[string]*facts.Sub{"a": {V: 3}}
+			g.Arr = []int64{1, 2}
+			g.SelArr = []int64{5, 6, 7}
+			g.M = map[string]int64{"k": 1}
+			w.Objs["G"] = g
 			return w
 		}
 	}
